@@ -46,15 +46,21 @@ def ids(xs):
     return coq_list([str(i) for i in (xs or [])])
 
 
+def tps_to_coq(xs):
+    return coq_list(["TPol %d %d %s" % (x["tmpl"], 0 if x["tmpl"] == 2 else x["name"], coq_list([str(d) for d in (x["dcs"] or [])])) for x in (xs or [])])
+
+
 def rcase_to_coq(c):
     names = coq_list([coq_str(bytes.fromhex(h)) for h in c["names_hex"]])
-    pols = coq_list(["(%d, WPolicy (%s) %s)" % (p["id"], entry_to_coq(p), ids(p["dcs"])) for p in c["pols"]])
-    roles = coq_list(["(%d, WRole %s %s %s)" % (r["id"], ids(r["pols"]), sis_to_coq(r["sis"]), nis_to_coq(r["nis"])) for r in c["roles"]])
-    ssvc = coq_list(["(%d, %s)" % (s["name"], entry_to_coq(s)) for s in (c["synth"] or []) if s["kind"] == "svc"])
-    snode = coq_list(["(%d, %s)" % (s["name"], entry_to_coq(s)) for s in (c["synth"] or []) if s["kind"] == "node"])
-    toks = coq_list(["WToken %s %s %s %s" % (ids(t["pols"]), ids(t["roles"]), sis_to_coq(t["sis"]), nis_to_coq(t["nis"])) for t in c["toks"]])
+    pols = coq_list(["(%d, WPolicy (%s) %s)" % (p["id"], entry_to_coq(p), ids(p["dcs"])) for p in (c["pols"] or [])])
+    roles = coq_list(["(%d, WRole %s %s %s %s)" % (r["id"], ids(r["pols"]), sis_to_coq(r["sis"]), nis_to_coq(r["nis"]), tps_to_coq(r.get("tps"))) for r in (c["roles"] or [])])
+    synth = c["synth"] or []
+    ssvc = coq_list(["(%d, %s)" % (s["name"], entry_to_coq(s)) for s in synth if s["kind"] == "svc"])
+    snode = coq_list(["(%d, %s)" % (s["name"], entry_to_coq(s)) for s in synth if s["kind"] == "node"])
+    stp = coq_list(["((%d, %d), %s)" % (int(s["kind"][2:]), s["name"], entry_to_coq(s)) for s in synth if s["kind"].startswith("tp")])
+    toks = coq_list(["WToken %s %s %s %s %s" % (ids(t["pols"]), ids(t["roles"]), sis_to_coq(t["sis"]), nis_to_coq(t["nis"]), tps_to_coq(t.get("tps"))) for t in c["toks"]])
     steps = coq_list(["RStep %d %s" % (s["tok"], "None" if s["err"] else '(Some "%s"%%string)' % s["expect"]) for s in c["steps"]])
-    return "ResolverCase (RCase %s\n   (World %d %s\n    %s\n    %s\n    %s)\n   %s\n   %s)" % (names, c["dc"], pols, roles, ssvc, snode, toks, steps)
+    return "ResolverCase (RCase %s\n   (World %d %s\n    %s\n    %s\n    %s\n    %s)\n   %s\n   %s)" % (names, c["dc"], pols, roles, ssvc, snode, stp, toks, steps)
 
 
 def any_to_coq(c):
@@ -116,10 +122,12 @@ def describe_r(c):
     svc = ["a", "ab", "abc", "b"]
     si = lambda xs: ["%s@%s" % (svc[x["name"]], ",".join("dc%d" % d for d in (x["dcs"] or [])) or "all") for x in (xs or [])]
     ni = lambda xs: ["node %s@dc%d" % (svc[x["name"]], x["dc"]) for x in (xs or [])]
+    tmpl = ["builtin/service", "builtin/node", "builtin/dns"]
+    tp = lambda xs: ["%s%s@%s" % (tmpl[x["tmpl"]], "" if x["tmpl"] == 2 else "(" + svc[x["name"]] + ")", ",".join("dc%d" % d for d in (x["dcs"] or [])) or "all") for x in (xs or [])]
     return {"datacenter": "dc%d" % c["dc"],
-            "policies": {p["id"]: {"rules": p["hcl"], "datacenters": ["dc%d" % d for d in (p["dcs"] or [])]} for p in c["pols"]},
-            "roles": {r["id"]: {"policies": r["pols"], "identities": si(r["sis"]) + ni(r["nis"])} for r in c["roles"]},
-            "tokens": {t["id"]: {"policies": t["pols"], "roles": t["roles"], "identities": si(t["sis"]) + ni(t["nis"])} for t in c["toks"]},
+            "policies": {p["id"]: {"rules": p["hcl"], "datacenters": ["dc%d" % d for d in (p["dcs"] or [])]} for p in (c["pols"] or [])},
+            "roles": {r["id"]: {"policies": r["pols"], "identities": si(r["sis"]) + ni(r["nis"]) + tp(r.get("tps"))} for r in (c["roles"] or [])},
+            "tokens": {t["id"]: {"policies": t["pols"], "roles": t["roles"], "identities": si(t["sis"]) + ni(t["nis"]) + tp(t.get("tps"))} for t in (c["toks"] or [])},
             "resolved_in_order": [c["toks"][s["tok"]]["id"] for s in c["steps"]]}
 
 
@@ -149,7 +157,9 @@ def run(ctx):
     binp = vlib.go_build("acl")
     out = os.path.join(ctx.workdir, "cases.jsonl")
     tabf = os.path.join(ctx.workdir, "tab.json")
-    rc, o = vlib.sh([binp, "-seed", str(ctx.seed), "-tier", ctx.tier, "-out", out, "-tab", tabf], timeout=3000)
+    open_kinds = sorted({f.get("signature", {}).get("kind", "") for f in vlib.load_known()
+                         if f.get("property") == PROP and f.get("status") != "fixed"} - {""})
+    rc, o = vlib.sh([binp, "-seed", str(ctx.seed), "-tier", ctx.tier, "-out", out, "-tab", tabf, "-known", ",".join(open_kinds)], timeout=3000)
     if rc != 0:
         raise vlib.BuildError("harness run failed: " + o[-2000:])
 
@@ -196,49 +206,52 @@ def run(ctx):
         mism += [s[i] for i in idx]
 
     # ---- direct oracle on the implementation ----
-    oracle_fail = [c for c in allcases if c["oracle"]]
-    new_fail, known_hits = [], collections.Counter()
+    # Every failing clause of every case is judged on its own: a clause is excused only if an OPEN
+    # known finding matches that clause's signature; a case whose verdict is a known finding can
+    # still produce a violation through another clause.
+    oracle_fail = [c for c in allcases if c.get("fails")]
+    known_hits, unknown = collections.Counter(), collections.OrderedDict()
+    has_unknown = set()
     for c in oracle_fail:
-        f = vlib.match_known(PROP, signature(c))
-        if f:
-            ctx.known(f, f["what"])
-            known_hits[c["sig"]["kind"]] += 1
-        else:
-            new_fail.append(c)
-    reported = set()
-    for c in new_fail:
-        k = c["sig"]["kind"]
-        if k in reported or len(reported) >= 5:
-            continue
-        reported.add(k)
-        sh = c.get("shrunk") or c
+        for f in c["fails"]:
+            sig = {"kind": f["sig"]["kind"], "noncanonical_spelling": f["sig"].get("noncanonical_spelling")}
+            kf = vlib.match_known(PROP, sig)
+            if kf:
+                ctx.known(kf, kf["what"])
+                known_hits[sig["kind"]] += 1
+            else:
+                has_unknown.add(id(c))
+                unknown.setdefault(sig["kind"], []).append((c, f))
+    new_fail = [c for c in oracle_fail if id(c) in has_unknown]
+    for k, lst in list(unknown.items())[:5]:
+        # prefer a case whose verdict (the clause the harness shrank for) is this clause
+        c, f = next(((c, f) for c, f in lst if c.get("shrunk") and c["sig"]["kind"] == k), lst[0])
+        shrunk_ok = bool(c.get("shrunk")) and c["sig"]["kind"] == k
+        sh = c["shrunk"] if shrunk_ok else c
+        reason = sh["oracle"] if shrunk_ok else f["reason"]
+        base = {"kind": "oracle", "reason": reason, "signature": {"kind": k}, "detail": f["sig"], "cases_failing_this_clause": len(lst),
+                "all_failing_clauses_of_case": c.get("oracle_kinds"), "stream": c["stream"], "unshrunk_reason": f["reason"],
+                "shrunk": shrunk_ok, "replay_cmd": "build/bin/acl -replay <this file>"}
         if c.get("resolver"):
-            ctx.violation({"kind": "oracle", "reason": sh["oracle"], "signature": signature(sh), "detail": sh.get("sig"),
-                           "all_failing_clauses": c.get("oracle_kinds"), "stream": c["stream"],
-                           "token_sequence": describe_r(sh), "rcase": slim_r(sh), "unshrunk_reason": c["oracle"],
-                           "replay_cmd": "build/bin/acl -replay <this file>"})
-            continue
-        ctx.violation({"kind": "oracle", "reason": sh["oracle"], "signature": signature(sh), "detail": sh.get("sig"), "all_failing_clauses": c.get("oracle_kinds"),
-                       "stream": c["stream"],
-                       "token_sequence": [[sh["pool"][i]["hcl"] for i in (t["idx"] or [])] for t in sh["toks"]],
-                       "case": slim(sh), "unshrunk_reason": c["oracle"],
-                       "replay_cmd": "build/bin/acl -replay <this file>"})
-    # mismatches that coincide with a known finding are the model being as wrong as the code; the
-    # others, without any oracle failure, mean the correspondence itself broke
-    unexplained = [c for c in mism if not c["oracle"]]
-    if unexplained and not new_fail:
-        c = unexplained[0]
+            base.update({"token_sequence": describe_r(sh), "rcase": slim_r(sh)})
+        else:
+            base.update({"token_sequence": [[sh["pool"][i]["hcl"] for i in (t["idx"] or [])] for t in sh["toks"]], "case": slim(sh)})
+        ctx.violation(base)
+    # A model/implementation mismatch is a violation of the correspondence whatever the oracle
+    # says about known findings; only a case that already carries an unknown oracle failure
+    # (reported above with its input) is not reported a second time.
+    unexplained = [c for c in mism if id(c) not in has_unknown]
+    for c in unexplained[:2]:
         if c.get("resolver"):
             ctx.violation({"kind": "correspondence", "theorem": "Run.C08.rcheck (model policies_for_identity/compile/chain_decide = ACLResolver.ResolveToken)",
                            "mismatching_cases": len(unexplained), "stream": c["stream"], "token_sequence": describe_r(c), "rcase": slim_r(c),
+                           "oracle_clauses_failing_in_case": c.get("oracle_kinds"),
                            "observed": [st["expect"] if not st["err"] else "error" for st in c["steps"]]}, found_input=False)
-            c = None
-    if unexplained and not new_fail and c is not None:
-        ctx.violation({"kind": "correspondence", "theorem": "Run.C08.check (model compile/policy_decide/chain_decide = implementation)",
-                       "mismatching_cases": len(unexplained), "stream": c["stream"], "case": slim(c),
-                       "observed": [t["expect"] if not t["err"] else "error" for t in c["toks"]]},
-                      found_input=False)
-    mism_in_failing = [c for c in mism if c["oracle"]]
+        else:
+            ctx.violation({"kind": "correspondence", "theorem": "Run.C08.check (model compile/policy_decide/chain_decide = implementation)",
+                           "mismatching_cases": len(unexplained), "stream": c["stream"], "case": slim(c),
+                           "oracle_clauses_failing_in_case": c.get("oracle_kinds"),
+                           "observed": [t["expect"] if not t["err"] else "error" for t in c["toks"]]}, found_input=False)
 
     ex = [c for c in cases if c["stream"] == "main"][:2] + [c for c in cases if c["stream"] == "mixed-case"][:1]
     cov.update({
@@ -266,6 +279,7 @@ def run(ctx):
         "model_mismatches": len(mism),
         "model_mismatches_without_oracle_failure": len(unexplained),
         "oracle_failures": len(oracle_fail),
+        "oracle_failing_clauses_unknown": {k: len(v) for k, v in unknown.items()},
         "oracle_failures_known": dict(known_hits),
         "oracle_failures_unknown": len(new_fail),
         "oracle_clauses": ["cache-dependence (shared vs fresh cache)", "cached-policy-mutated (deep compare with a fresh parse)",
